@@ -13,7 +13,9 @@ package shmipc
 import (
 	"fmt"
 	"math/rand"
+	"os"
 	"strings"
+	"sync/atomic"
 )
 
 func init() {
@@ -47,6 +49,9 @@ func c04Label(site string, consumer bool) string {
 type c04Elem struct{ a, b, c uint32 }
 
 func c04Gen(r *rand.Rand, tier string, idx int) []string {
+	if idx%100 == 37 {
+		return []string{fmt.Sprintf("xqueue %d", r.Intn(6))}
+	}
 	cap := []int{0, 1, 1, 2, 2, 3, 4}[r.Intn(7)]
 	base := 0
 	if r.Intn(2) == 0 && cap > 0 {
@@ -343,7 +348,54 @@ func (c *c04Run) spec() {
 	}
 }
 
+var c04Seq uint64
+
+// xqueue <held>: a second creator on the path of a LIVE queue (another session with the same QueuePath, in this or another
+// process): it must be refused; if it is let in, it re-initialises the ring under the first session's feet.
+func c04SecondCreator(f []string) vResult {
+	res := vResult{noModel: true, out: []string{"done"}, tags: []string{"second-queue-creator"}}
+	held := vAtoi(f[1])
+	if held < 0 || held > 8 {
+		res.out = []string{"bad-op"}
+		return res
+	}
+	path := fmt.Sprintf("/dev/shm/verif_c04_%d_%d_queue", os.Getpid(), atomic.AddUint64(&c04Seq, 1))
+	defer os.Remove(path)
+	qm, err := createQueueManager(path, 8)
+	if err != nil {
+		res.specFail, res.key = "createQueueManager: "+err.Error(), "setup"
+		return res
+	}
+	defer qm.unmap()
+	for i := 0; i < held; i++ {
+		qm.sendQueue.put(queueElement{seqID: uint32(100 + i), offsetInShmBuf: uint32(i), status: 1})
+	}
+	qm2, err2 := createQueueManager(path, 8)
+	if err2 == nil {
+		defer qm2.unmap()
+	}
+	// S (C04): every element put is delivered exactly once, in order - whatever other sessions do with the same path
+	for i := 0; i < held; i++ {
+		e, err := qm.sendQueue.pop()
+		if err != nil || e.seqID != uint32(100+i) || e.offsetInShmBuf != uint32(i) {
+			res.specFail = fmt.Sprintf("%d elements were enqueued; a second createQueueManager on the same path returned err=%v; pop %d then gave (%+v, %v)", held, err2, i, e, err)
+			res.key = "second-queue-creator-reinitialises-live-queue"
+			return res
+		}
+	}
+	if err2 == nil {
+		res.specFail = "a second createQueueManager on the path of a live queue succeeded: both sessions now enqueue into and pop from one ring"
+		res.key = "second-queue-creator-accepted"
+	}
+	return res
+}
+
 func c04Exec(ops []string) vResult {
+	if len(ops) == 1 && strings.HasPrefix(ops[0], "xqueue ") {
+		if f := vFields(ops[0]); len(f) == 2 {
+			return c04SecondCreator(f)
+		}
+	}
 	c := &c04Run{tags: map[string]bool{}, holder: -1}
 	var out []string
 	defer func() { vS = nil }()
